@@ -334,7 +334,7 @@ macro_rules! arr {
         }
     )*};
 }
-arr!(1 => 8, 2 => 8, 3 => 8, 4 => 16, 5 => 16, 8 => 16, 10 => 16, 16 => 24, 20 => 24, 32 => 40, 64 => 64, 96 => 256, 128 => 128, 256 => 256);
+arr!(1 => 8, 2 => 8, 3 => 8, 4 => 16, 5 => 16, 8 => 16, 10 => 16, 16 => 24, 20 => 24, 32 => 256, 64 => 64, 96 => 256, 128 => 128, 256 => 256);
 
 pub struct SmallVec<A: Array>
 where
